@@ -431,7 +431,8 @@ func wrapTo(t types.Type, x string) string {
 // rangeAssume yields a formula constraining term x (of Go type t) to t's value range ("" if none).
 func (st *sortTable) rangeAssume(t types.Type, x string, depth int) string {
 	if isTime(t) {
-		return ""
+		// every time.Time is an int64 count of seconds since year 1 plus nanoseconds: |unix ns| < 9.3e27
+		return and(app("<=", "(- 9300000000000000000000000000)", app("t.abs", x)), app("<=", app("t.abs", x), "9300000000000000000000000000"))
 	}
 	switch u := t.Underlying().(type) {
 	case *types.Basic:
